@@ -161,6 +161,11 @@ type labInst struct {
 	barrierN int
 	mu       sync.Mutex
 	grace    time.Duration
+	// Call-IDs of the stimulus in flight: receptions carrying another Call-ID are
+	// late arrivals of an earlier case (a harness reader goroutine was slow);
+	// they are counted and ignored - lost sensitivity, never a false alarm
+	expectIDs map[string]bool
+	late      int64
 }
 
 var labInstCount int
@@ -227,12 +232,56 @@ type labLost struct{ what string }
 
 func (e labLost) Error() string { return e.what }
 
+// expect names the stimulus about to be sent (by its Call-ID); settle then
+// returns only receptions that carry one of the expected Call-IDs.
+func (in *labInst) expect(wires ...[]byte) {
+	in.expectIDs = map[string]bool{}
+	for _, w := range wires {
+		if m, err := sipRead(w); err == nil {
+			if id, ok := m.First(hCallID); ok {
+				in.expectIDs[id] = true
+			}
+		}
+	}
+}
+
+func (in *labInst) mine(r labRx) bool {
+	if len(in.expectIDs) == 0 || r.msg == nil || r.closed {
+		return true
+	}
+	id, ok := r.msg.First(hCallID)
+	if !ok || in.expectIDs[id] {
+		return true
+	}
+	in.late++
+	V.ExtraAdd("late_arrivals_of_earlier_cases_ignored", 1)
+	return false
+}
+
 // settle sends a barrier through the same ingress path as the stimulus
 // (send), waits until it has come out at the sink (everything queued before
 // it has then been handled by the FIFO proxy loop), keeps waiting up to 20 s
 // for at least min receptions, then drains after a short grace. It returns
 // every reception other than barriers.
 func (in *labInst) settle(send func([]byte) error, min int) ([]labRx, error) {
+	t0 := time.Now()
+	defer func() {
+		d := time.Since(t0)
+		V.ExtraAdd("settle_calls", 1)
+		V.ExtraAdd("settle_total_us", d.Microseconds())
+		switch {
+		case d > 50*time.Millisecond:
+			V.ExtraAdd("settle_calls_over_50ms", 1)
+		case d > 10*time.Millisecond:
+			V.ExtraAdd("settle_calls_10_50ms", 1)
+		case d > 3*time.Millisecond:
+			V.ExtraAdd("settle_calls_3_10ms", 1)
+		case d > time.Millisecond:
+			V.ExtraAdd("settle_calls_1_3ms", 1)
+		default:
+			V.ExtraAdd("settle_calls_under_1ms", 1)
+		}
+	}()
 	in.barrierN++
 	n := in.barrierN
 	if err := send(in.barrierBytes(n)); err != nil {
@@ -249,7 +298,9 @@ func (in *labInst) settle(send func([]byte) error, min int) ([]labRx, error) {
 			}
 			return out, nil
 		}
+		tw := time.Now()
 		r, ok := in.hub.waitOne(left)
+		V.ExtraAdd("settle_wait_us", time.Since(tw).Microseconds())
 		if !ok {
 			continue
 		}
@@ -259,14 +310,18 @@ func (in *labInst) settle(send func([]byte) error, min int) ([]labRx, error) {
 			}
 			continue
 		}
-		out = append(out, r)
+		if in.mine(r) {
+			out = append(out, r)
+		}
 	}
 	time.Sleep(in.grace)
 	for _, r := range in.hub.drain() {
 		if _, isb := isBarrier(r); isb {
 			continue
 		}
-		out = append(out, r)
+		if in.mine(r) {
+			out = append(out, r)
+		}
 	}
 	return out, nil
 }
